@@ -17,7 +17,7 @@
     certificate, so a certificate whose received bytes were never signed is accepted (DESIGN §6 F4).
 -/
 import XC.Model.C41
-import XC.Proofs.C38_Wire
+import XC.Proofs.C41
 namespace XC.C41
 open XC XC.C38
 
@@ -234,6 +234,17 @@ theorem received_signature_rejected :
     checkCert verify ck [] wCert = .reject ∧
     checkCertRecv verify ck [] wCert (recvSigned wRecv wCert) = .accept := by
   decide +kernel
+
+/-- non-vacuity of `marshal_parse` (XC/Proofs/C41.lean): the witness certificate is well-formed, and the
+    theorem applies to its canonical encoding -/
+example : parsePublicKey noPts wCanon = some (.cert wCert) := by
+  have hw : CertWF noPts wCert ⟨algoED25519, [], []⟩ := by
+    refine ⟨?_, ?_, rfl, ?_, ?_, ?_, ?_, ?_, ?_, ?_, ?_, ?_, ?_, ?_, ?_, ?_, ?_, ?_, ?_, ?_, ?_⟩
+    all_goals first
+      | decide
+      | (intro p hp; cases hp)
+      | (intro kv hkv; simp only [wCert, List.mem_singleton] at hkv; subst hkv; decide)
+  exact marshal_parse noPts wCert _ hw wCanon (by decide +kernel)
 
 /-- The full property as stated: for every received blob that parses, the decision is the one
     over the received bytes.  It does NOT hold of the code (`reencoding_accepted`); it holds on
